@@ -364,7 +364,8 @@ pub fn read_routes(ctx: &mut Ctx, prop_rt: &str, ty: i32, shp: &[u8], shx: Optio
                             match g {
                                 Ok(g) => {
                                     if let Some(d) = diff_read(&expected[*i], g, *i, &area) {
-                                        ctx.fail(prop_rt, "same-shape", route.clone(), format!("nth(1) then step_by(2): the item expected to be shape {}: {}", i, d));
+                                        let (clause, site) = shape_diff_class(&d, &route);
+                                        ctx.fail(prop_rt, clause, site.to_string(), format!("nth(1) then step_by(2): the item expected to be shape {}: {}", i, d));
                                         break;
                                     }
                                 }
@@ -413,7 +414,9 @@ pub fn read_routes(ctx: &mut Ctx, prop_rt: &str, ty: i32, shp: &[u8], shx: Optio
                 match guarded(|| r7.iter_shapes().last().map(|x| x.map(|s| capture(&s)).map_err(|e| classify(&e)))) {
                     Ok(Some(Ok(g))) => {
                         if let Some(d) = diff_read(&expected[n - 1], &g, n - 1, &area) {
-                            ctx.fail(prop_rt, "same-shape", format!("last/{}", tag), format!("iter_shapes().last() is not shape {}: {}", n - 1, d));
+                            let route = format!("last/{}", tag);
+                            let (clause, site) = shape_diff_class(&d, &route);
+                            ctx.fail(prop_rt, clause, site.to_string(), format!("iter_shapes().last() is not shape {}: {}", n - 1, d));
                         }
                     }
                     Ok(other) => ctx.fail(prop_rt, "no-error", format!("last/{}", tag), format!("iter_shapes().last() over {} shapes = {:?}", n, other.map(|x| item_short(&x)))),
@@ -437,7 +440,8 @@ pub fn read_routes(ctx: &mut Ctx, prop_rt: &str, ty: i32, shp: &[u8], shx: Optio
                         match got {
                             Ok(Some(Ok(g))) => {
                                 if let Some(d) = diff_read(&expected[i], &g, i, &area) {
-                                    ctx.fail(prop_rt, "same-shape", route, format!("{}({}): {}", route, i, d));
+                                    let (clause, site) = shape_diff_class(&d, route);
+                                    ctx.fail(prop_rt, clause, site, format!("{}({}): {}", route, i, d));
                                 }
                             }
                             Ok(other) => ctx.fail("C04", "random-access", route, format!("{}({}) = {:?}", route, i, other.map(|x| item_short(&x)))),
@@ -768,7 +772,23 @@ pub fn execute(scn: &RtScn, ctx: &mut Ctx) {
 fn path_routes(ctx: &mut Ctx, scn: &RtScn, ty: i32, expected: &[Geom], mem_shp: &[u8], mem_shx: Option<&[u8]>) {
     let dir = crate::scratch_dir();
     let h = crate::prng::fnv_str(&serde_json::to_string(&scn.w).unwrap_or_default());
-    let base = dir.join(format!("rt-{}", h));
+    // a quarter of the by-path runs name the files without any directory component, relative to the
+    // current directory (which is the scratch directory for the duration of the route)
+    if h % 4 == 3 {
+        if let Ok(old) = std::env::current_dir() {
+            if std::env::set_current_dir(&dir).is_ok() {
+                ctx.stats.reach("path-route-bare-file-name");
+                path_routes_at(ctx, scn, ty, expected, mem_shp, mem_shx, std::path::PathBuf::from(format!("rt-{}", h)), h);
+                let _ = std::env::set_current_dir(old);
+                return;
+            }
+        }
+    }
+    path_routes_at(ctx, scn, ty, expected, mem_shp, mem_shx, dir.join(format!("rt-{}", h)), h);
+}
+
+#[allow(clippy::too_many_arguments)]
+fn path_routes_at(ctx: &mut Ctx, scn: &RtScn, ty: i32, expected: &[Geom], mem_shp: &[u8], mem_shx: Option<&[u8]>, base: std::path::PathBuf, h: u64) {
     // the name the caller gives the .shp: lower case, upper case (data sets from case-insensitive
     // systems), mixed; the writer and the readers derive the sibling names from it
     let shp_path = base.with_extension(["shp", "SHP", "Shp"][(h % 3) as usize]);
@@ -863,7 +883,7 @@ fn path_routes(ctx: &mut Ctx, scn: &RtScn, ty: i32, expected: &[Geom], mem_shp: 
                         ctx.fail("C04", "shape-count", "path", format!("shape_count by path = {:?}", cnt));
                     }
                     for (i, x) in nth.iter().enumerate() {
-                        let ok = if i < expected.len() { matches!(x, Some(Ok(g)) if diff_read(&expected[i], g, i, &area).is_none()) } else { x.is_none() };
+                        let ok = if i < expected.len() { matches!(x, Some(Ok(g)) if diff_read(&expected[i], g, i, &area).map_or(true, |d| d.starts_with(ROUNDING_MARK))) } else { x.is_none() };
                         if !ok {
                             ctx.fail("C04", "random-access", "path", format!("read_nth_shape({}) by path = {:?}", i, x.as_ref().map(item_short)));
                             // random access by index on files opened by path is one of C01's reading routes
@@ -888,6 +908,36 @@ fn path_routes(ctx: &mut Ctx, scn: &RtScn, ty: i32, expected: &[Geom], mem_shp: 
 pub fn grid_unit(unit: u64, ctx: &mut Ctx, ctl: &mut crate::scn::UnitCtl) {
     use crate::scn::Scenario;
     let ty = TYPES[unit as usize % 13];
+    if is_polygon(ty) {
+        // rings whose exact signed area is tiny but not zero (sides of 2^-30, 2^-20, 2^-10 around
+        // (10, 10)), declared inner and outer, in both orientations: the role is kept
+        for (k, e) in [30i32, 20, 10].iter().enumerate() {
+            let d = (2.0f64).powi(-*e);
+            let v = |x: f64, y: f64| -> V { [x.to_bits(), y.to_bits(), 1f64.to_bits(), 2f64.to_bits()] };
+            let big = Part { kind: 0, pts: vec![v(0.0, 0.0), v(0.0, 40.0), v(40.0, 40.0), v(40.0, 0.0), v(0.0, 0.0)] };
+            let ccw = vec![v(10.0, 10.0), v(10.0 + d, 10.0), v(10.0 + d, 10.0 + d), v(10.0, 10.0 + d), v(10.0, 10.0)];
+            let cw: Vec<V> = ccw.iter().rev().copied().collect();
+            // for the smallest side also a sliver whose x coordinates are 0, 1, 2 units of the smallest subnormal
+            let u = f64::from_bits(1);
+            let sliver = vec![v(0.0, 0.5), v(-u, 0.5), v(-2.0 * u, 0.5), v(-2.0 * u, -0.5), v(0.0, 0.5)];
+            let sliver_rev: Vec<V> = sliver.iter().rev().copied().collect();
+            let mut variants = vec![(1, ccw.clone()), (1, cw.clone()), (0, ccw), (0, cw)];
+            if k == 0 {
+                variants.extend([(1, sliver.clone()), (1, sliver_rev.clone()), (0, sliver), (0, sliver_rev)]);
+            }
+            for (kind, pts) in variants {
+                let shapes = vec![ShapeSpec { ty, parts: vec![big.clone(), Part { kind, pts }], ctor: (k % 3) as u8 }];
+                let scn = RtScn { w: WProg { calls: vec![WCall::W(0)], shapes, others: vec![], ending: Ending::Drop, with_shx: k % 2 == 0, stack: StackCfg::Direct }, wplan: Plan::default(), rstack: StackCfg::Direct, rplan: Plan::default(), path: false };
+                if !ctl.before_case(|| Scenario::Rt(scn.clone())) {
+                    continue;
+                }
+                ctx.stats.evaluations += 1;
+                ctx.stats.reach("ring-of-tiny-nonzero-area");
+                execute(&scn, ctx);
+                ctl.after_case(ctx, || Scenario::Rt(scn.clone()));
+            }
+        }
+    }
     let (pmax, nmax) = if is_point(ty) { (1, 1) } else if is_multipoint(ty) { (1, 8) } else { (6, 8) };
     let nmin = if is_polyline(ty) { 2 } else { 1 };
     for nparts in 1..=pmax {
@@ -1004,5 +1054,216 @@ pub fn large_unit(unit: u64, ctx: &mut Ctx, ctl: &mut crate::scn::UnitCtl) {
         ctx.stats.reach("large-scenario");
         execute(&scn, ctx);
         ctl.after_case(ctx, || Scenario::Rt(scn.clone()));
+    }
+}
+
+
+// ---------------------------------------------------------------------------------------------
+// C05 on one very large multi-vertex shape (millions of points, generated procedurally): the box
+// the shape carries, the box stored in its record and the header box are the extremes of its
+// vertices - the last vertex, which alone holds the maxima, included.
+
+#[derive(Clone, Debug, serde::Serialize, serde::Deserialize)]
+pub struct BigBoxScn {
+    /// 8 = Multipoint, 3 = Polyline (one part), 28 = MultipointM
+    pub ty: i32,
+    pub npts: u32,
+}
+
+pub fn execute_bigbox(scn: &BigBoxScn, ctx: &mut Ctx) {
+    let n = scn.npts as usize;
+    if n < 4 || n > 40_000_000 || ![8, 3, 28].contains(&scn.ty) {
+        ctx.fail("HARNESS", "invalid-scenario", "big-box", "bad parameters".to_string());
+        return;
+    }
+    // x in [1, 2), y in [1.0009765625, 2): both grow and wrap; the first vertex holds the minima, the
+    // last one the maxima (5, 7) and, for M, the only measure above 3
+    let coord = |i: usize| -> (f64, f64, f64) {
+        if i == 0 {
+            (1.0, 1.0009765625, 0.5)
+        } else if i == n - 1 {
+            (5.0, 7.0, 9.0)
+        } else {
+            (1.0 + ((i % 1023) + 1) as f64 / 1024.0, 1.0009765625 + ((i % 1021) + 1) as f64 / 1024.0, 1.0 + (i % 7) as f64 / 4.0)
+        }
+    };
+    let want: [f64; 6] = [1.0, 1.0009765625, 5.0, 7.0, 0.5, 9.0];
+    let r = guarded(|| -> Result<(Vec<f64>, Vec<u8>), shapefile::Error> {
+        let mut out = std::io::Cursor::new(Vec::<u8>::with_capacity(128 + 24 * n));
+        let carried: Vec<f64>;
+        {
+            let mut w = shapefile::ShapeWriter::new(&mut out);
+            match scn.ty {
+                8 => {
+                    let s = shapefile::Multipoint::new((0..n).map(|i| { let c = coord(i); shapefile::Point::new(c.0, c.1) }).collect());
+                    carried = vec![s.bbox().min.x, s.bbox().min.y, s.bbox().max.x, s.bbox().max.y];
+                    w.write_shape(&s)?;
+                }
+                3 => {
+                    let s = shapefile::Polyline::new((0..n).map(|i| { let c = coord(i); shapefile::Point::new(c.0, c.1) }).collect());
+                    carried = vec![s.bbox().min.x, s.bbox().min.y, s.bbox().max.x, s.bbox().max.y];
+                    w.write_shape(&s)?;
+                }
+                _ => {
+                    let s = shapefile::MultipointM::new((0..n).map(|i| { let c = coord(i); shapefile::PointM::new(c.0, c.1, c.2) }).collect());
+                    carried = vec![s.bbox().min.x, s.bbox().min.y, s.bbox().max.x, s.bbox().max.y, s.bbox().min.m, s.bbox().max.m];
+                    w.write_shape(&s)?;
+                }
+            }
+            w.finalize()?;
+        }
+        let mut bytes = out.into_inner();
+        bytes.truncate(100 + 12 + 32 + 64);
+        Ok((carried, bytes))
+    });
+    match r {
+        Err(p) => ctx.fail("C05", "panic", p.site(), format!("a {} of {} points: {}", type_name(scn.ty), n, p.text())),
+        Ok(Err(e)) => ctx.fail("C05", "write-ok", "big-box", format!("a {} of {} points: {:?}", type_name(scn.ty), n, classify(&e))),
+        Ok(Ok((carried, bytes))) => {
+            let f = |o: usize| f64::from_le_bytes(bytes[o..o + 8].try_into().unwrap());
+            let ok4 = |v: &[f64]| v[0] == want[0] && v[1] == want[1] && v[2] == want[2] && v[3] == want[3];
+            if !ok4(&carried) || (scn.ty == 28 && (carried[4] != want[4] || carried[5] != want[5])) {
+                ctx.fail("C05", "constructed-box", format!("big:{}", type_name(scn.ty)), format!("a {} of {} points whose last vertex holds the maxima carries the box {:?}, expected {:?}", type_name(scn.ty), n, carried, want));
+            }
+            let rec: Vec<f64> = (0..4).map(|k| f(112 + 8 * k)).collect();
+            if !ok4(&rec) {
+                ctx.fail("C05", "record-box", format!("big:{}", type_name(scn.ty)), format!("a {} of {} points: the record stores the box {:?}, expected {:?}", type_name(scn.ty), n, rec, &want[..4]));
+            }
+            let hdr: Vec<f64> = (0..4).map(|k| f(36 + 8 * k)).collect();
+            if !ok4(&hdr) || (scn.ty == 28 && (f(84) != want[4] || f(92) != want[5])) {
+                ctx.fail("C05", "header-bytes", format!("big:{}", type_name(scn.ty)), format!("a {} of {} points: the header stores x/y {:?} and m [{}, {}], expected {:?}", type_name(scn.ty), n, hdr, f(84), f(92), want));
+            }
+            ctx.stats.reach("box-of-a-shape-of-millions-of-points");
+        }
+    }
+    ctx.stats.distinct.insert(crate::prng::fnv_str(&format!("bigbox|{}|{}", scn.ty, scn.npts)));
+}
+
+/// unit 0 (quick and thorough): 8 Mi + 2 and 8 Mi + 3 points; unit 1 (thorough): 16 Mi + 2, 4 Mi + 2.
+pub fn bigbox_unit(unit: u64, ctx: &mut Ctx, ctl: &mut crate::scn::UnitCtl) {
+    use crate::scn::Scenario;
+    let cases: Vec<(i32, u32)> = if unit == 0 { vec![(8, (8 << 20) + 2), (3, (8 << 20) + 3)] } else { vec![(28, (16 << 20) + 2), (8, (4 << 20) + 2), (3, (2 << 20) + 2)] };
+    for (ty, npts) in cases {
+        let scn = BigBoxScn { ty, npts };
+        if !ctl.before_case(|| Scenario::BigBox(scn.clone())) {
+            continue;
+        }
+        ctx.stats.evaluations += 1;
+        execute_bigbox(&scn, ctx);
+        ctl.after_case(ctx, || Scenario::BigBox(scn.clone()));
+    }
+}
+
+
+// ---------------------------------------------------------------------------------------------
+// C18 on one shape of more than 2^26 points (more than 1 GiB of x,y): announced size = bytes emitted
+// = content length stored by the writer. Nothing is kept but a count and the first bytes.
+
+/// Keeps the first 256 bytes, counts everything.
+struct HeadSink {
+    head: Vec<u8>,
+    pos: u64,
+    len: u64,
+}
+impl std::io::Write for HeadSink {
+    fn write(&mut self, buf: &[u8]) -> std::io::Result<usize> {
+        let p = self.pos as usize;
+        if p < 256 {
+            let n = buf.len().min(256 - p);
+            if self.head.len() < p + n {
+                self.head.resize(p + n, 0);
+            }
+            self.head[p..p + n].copy_from_slice(&buf[..n]);
+        }
+        self.pos += buf.len() as u64;
+        self.len = self.len.max(self.pos);
+        Ok(buf.len())
+    }
+    fn flush(&mut self) -> std::io::Result<()> {
+        Ok(())
+    }
+}
+impl std::io::Seek for HeadSink {
+    fn seek(&mut self, to: std::io::SeekFrom) -> std::io::Result<u64> {
+        let t: i128 = match to {
+            std::io::SeekFrom::Start(n) => n as i128,
+            std::io::SeekFrom::End(d) => self.len as i128 + d as i128,
+            std::io::SeekFrom::Current(d) => self.pos as i128 + d as i128,
+        };
+        if t < 0 {
+            return Err(std::io::Error::new(std::io::ErrorKind::InvalidInput, "seek before start"));
+        }
+        self.pos = t as u64;
+        Ok(self.pos)
+    }
+}
+
+#[derive(Clone, Debug, serde::Serialize, serde::Deserialize)]
+pub struct BigEmitScn {
+    /// 8 = Multipoint, 28 = MultipointM
+    pub ty: i32,
+    pub npts: u32,
+}
+
+pub fn execute_bigemit(scn: &BigEmitScn, ctx: &mut Ctx) {
+    use shapefile::record::WritableShape;
+    let n = scn.npts as usize;
+    if n < 4 || n > 90_000_000 || ![8, 28].contains(&scn.ty) {
+        ctx.fail("HARNESS", "invalid-scenario", "big-emit", "bad parameters".to_string());
+        return;
+    }
+    let r = guarded(|| -> Result<(usize, u64, Vec<u8>, u64), shapefile::Error> {
+        let mut count = HeadSink { head: Vec::new(), pos: 0, len: 0 };
+        let mut sink = HeadSink { head: Vec::new(), pos: 0, len: 0 };
+        let announced;
+        if scn.ty == 8 {
+            let s = shapefile::Multipoint::new((0..n).map(|i| shapefile::Point::new((i % 4096) as f64, (i % 1021) as f64)).collect());
+            announced = s.size_in_bytes();
+            s.write_to(&mut count)?;
+            let mut w = shapefile::ShapeWriter::new(&mut sink);
+            w.write_shape(&s)?;
+            w.finalize()?;
+        } else {
+            let s = shapefile::MultipointM::new((0..n).map(|i| shapefile::PointM::new((i % 4096) as f64, (i % 1021) as f64, (i % 7) as f64)).collect());
+            announced = s.size_in_bytes();
+            s.write_to(&mut count)?;
+            let mut w = shapefile::ShapeWriter::new(&mut sink);
+            w.write_shape(&s)?;
+            w.finalize()?;
+        }
+        Ok((announced, count.len, sink.head.clone(), sink.len))
+    });
+    match r {
+        Err(p) => ctx.fail("C18", "panic", p.site(), format!("a {} of {} points: {}", type_name(scn.ty), n, p.text())),
+        Ok(Err(e)) => ctx.fail("C18", "write-ok", "big-emit", format!("a {} of {} points: {:?}", type_name(scn.ty), n, classify(&e))),
+        Ok(Ok((announced, emitted, head, file_len))) => {
+            if emitted != announced as u64 {
+                ctx.fail("C18", "write_to-length", format!("big:{}", type_name(scn.ty)), format!("a {} of {} points announces {} bytes, write_to emitted {}", type_name(scn.ty), n, announced, emitted));
+            }
+            let words = if head.len() >= 108 { i32::from_be_bytes([head[104], head[105], head[106], head[107]]) as i64 } else { -1 };
+            if words != ((announced + 4) / 2) as i64 {
+                ctx.fail("C18", "content-length-field", format!("big:{}", type_name(scn.ty)), format!("a {} of {} points announcing {} bytes: the record header stores {} content words", type_name(scn.ty), n, announced, words));
+            }
+            if file_len != 100 + 12 + announced as u64 {
+                ctx.fail("C18", "bytes-at-seam", format!("big:{}", type_name(scn.ty)), format!("a {} of {} points announcing {} bytes: the .shp has {} bytes", type_name(scn.ty), n, announced, file_len));
+            }
+            ctx.stats.reach("shape-of-more-than-2^26-points-emitted");
+        }
+    }
+    ctx.stats.distinct.insert(crate::prng::fnv_str(&format!("bigemit|{}|{}", scn.ty, scn.npts)));
+}
+
+/// unit 0: a Multipoint of 2^26 + 3 points (the x,y block alone is just over 1 GiB).
+pub fn bigemit_unit(unit: u64, ctx: &mut Ctx, ctl: &mut crate::scn::UnitCtl) {
+    use crate::scn::Scenario;
+    let cases: Vec<(i32, u32)> = if unit == 0 { vec![(8, (1 << 26) + 3)] } else { vec![(28, (1 << 26) + 5)] };
+    for (ty, npts) in cases {
+        let scn = BigEmitScn { ty, npts };
+        if !ctl.before_case(|| Scenario::BigEmit(scn.clone())) {
+            continue;
+        }
+        ctx.stats.evaluations += 1;
+        execute_bigemit(&scn, ctx);
+        ctl.after_case(ctx, || Scenario::BigEmit(scn.clone()));
     }
 }
